@@ -34,7 +34,7 @@ pub fn strategy_of(name: &str) -> BoxedStrategy<History> {
                 h.board.nb_offset_ms = o * 15;
                 h.board.tx_ms = t * 7;
                 h.board.nb_duration_ms = [100, 150, 999, 1000, 1001, 3000][(h.rng_seed % 6) as usize];
-                if h.cfg.front == FrontKind::Nb {
+                if h.cfg.front.is_nb() {
                     h.board.tx_ms = [t * 7, t * 7, 0x7FFF_FB00 + t * 300, 0xFFFF_F800 + t * 400, 0xFFFF_FFFF][((h.rng_seed >> 8) % 5) as usize];
                 }
                 h
